@@ -168,7 +168,7 @@ Print Assumptions C15_rename_empty_name_upstream_refuted.
 Theorem C15_faulted_request_no_effect : forall validate s o s' r,
   match o with FaultedCreate _ _ _ | FaultedRename _ _ _ _ => True | _ => False end ->
   step true validate s o = (s', r) -> s_amb s' = false ->
-  r.1 = EFault /\\ s_tab s' = s_tab s /\\ s_eng s' = s_eng s.
+  r.1 = EFault /\ s_tab s' = s_tab s /\ s_eng s' = s_eng s.
 Proof. exact faulted_no_effect. Qed.
 Print Assumptions C15_faulted_request_no_effect.
 
